@@ -7,7 +7,7 @@ property monitors on real traces -> on any broken obligation / disagreement sear
 input -> verdict + evidence."""
 import sys, os, json, random, shutil, time, re, traceback
 sys.path.insert(0, os.path.dirname(os.path.abspath(__file__)))
-import vlib, kapi, genapi, monitors, ksizes, kcrypto, kattr, kguard, kstore, ktoken, kfuzz, kdiff, kproc, kenc
+import vlib, kapi, genapi, monitors, ksizes, kcrypto, kattr, kguard, kstore, ktoken, kfuzz, kdiff, kproc, kenc, kthread
 
 TRUSTED_BASE = [
     'Coq 8.16.1 kernel (coqc, full .vo build); vm_compute used for reflection over regenerated tables and finite sweeps; no native_compute',
@@ -658,6 +658,52 @@ def check_C06(res, tier, seed):
     finish_proof_side(c, res, 'C06')
 
 
+def check_C18(res, tier, seed):
+    import multiprocessing
+    c = prepare('C18', res)
+    thr = c.harness['thrdrv']
+    rng = random.Random(seed)
+    known = {k['key']: k for k in vlib.known_findings() if k['kind'] == 'known' and k['property'] == 'C18'}
+    jobs, info = [], {}
+    for sc in kthread.SCENARIOS:
+        s1, s2, free = kthread.run(thr, c.lib, sc, -1), kthread.run(thr, c.lib, sc, -2), kthread.run(thr, c.lib, sc, 0)
+        if 'A' not in s1 or 'A' not in s2 or 'locks' not in free:
+            res.violation('C18: scenario %s does not run sequentially: %s' % (sc, (s1['raw'] + ' | ' + s2['raw'] + ' | ' + free['raw'])[:300]), {'kind': 'thread', 'scenario': sc, 'raw': [s1['raw'], s2['raw'], free['raw']]})
+            continue
+        L = free['locks']
+        ks = list(range(1, L + 1))
+        if tier == 'quick' and len(ks) > 48:
+            ks = sorted(set(ks[:16] + ks[-16:] + rng.sample(ks[16:-16], 16)))
+        info[sc] = {'lock_points': L, 'explored': len(ks), 'sequential': [s1['raw'][:160], s2['raw'][:160]]}
+        jobs += [(thr, c.lib, sc, k, [s1, s2]) for k in ks] + [(thr, c.lib, sc, 0, [s1, s2])] * (3 if tier == 'quick' else 40)
+    with multiprocessing.Pool(16) as pool:
+        results = pool.map(kthread.thread_case, jobs, chunksize=4)
+    byclass, reported = {}, 0
+    for r in results:
+        for msg in r['findings']:
+            key = None
+            if r['scenario'] in ('create_find', 'createsession_find', 'find_create', 'generate_generate', 'create_create') and 'explained by neither' in msg:
+                fin = msg.split('final=')[1].split(')')[0].split(',') if 'final=' in msg else []
+                if len(fin) != len(set(fin)):
+                    key = 'duplicate-object-instance'
+                elif 'B=0x0:,' in msg or 'B=0x0:?' in msg or 'A=0x0:,' in msg or 'A=0x0:?' in msg:
+                    key = 'half-created-visible'
+            elif r['scenario'] == 'logout_getprivate' and 'B=0x5:' in msg:
+                key = 'logout-during-read'
+            byclass[key or 'unclassified'] = byclass.get(key or 'unclassified', 0) + 1
+            if key in known:
+                res.known_finding('key=%s %s' % (key, known[key]['text'][:200]))
+            elif reported < 3:
+                reported += 1
+                res.violation('C18: ' + msg, {'kind': 'thread-schedule', 'scenario': r['scenario'], 'stop_A_before_LockMutex': r['k'], 'observed': r['raw'],
+                                              'how': 'harness/thrdrv <libsofthsm2.so> %s %d with SOFTHSM2_CONF pointing at an empty token directory' % (r['scenario'], r['k'])})
+    res.coverage.update({'evaluations': len(jobs), 'distinct_nontrivial': len(jobs),
+                         'rule': '14 two-thread scenarios (search / search on unregistered and registered token objects, private reads, create / create, create / search, session-object create / search, destroy / read, set / read, logout / private read, open / close session, HMAC / HMAC with one key, generate / generate, search / create, read / close): locking enabled with application mutex callbacks; thread A is stopped before each of its LockMutex calls in turn (quick: first 16, last 16 and 16 random ones per scenario) while thread B runs its whole call; the outcome (both return codes and outputs, final object set, handle uniqueness) must equal that of A;B or of B;A run without concurrency; plus free-running repetitions; a run that does not finish in 25 s is a deadlock',
+                         'scenarios': info, 'findings_by_class': byclass, 'traces_validated_against_impl': len(jobs),
+                         'not_covered': 'more than two threads, more than one stop point per call, OS locking (CKF_OS_LOCKING_OK) instead of callbacks, data races without a visible effect (no ThreadSanitizer run), SQLite backend'})
+    finish_proof_side(c, res, 'C18')
+
+
 def check_C05(res, tier, seed):
     c = prepare('C05', res, extra_vo=['extract/ExtractCodec.vo'])
     codecdrv = vlib.build_ocaml('codecdrv', 'codec_model', 'codecdrv.ml')
@@ -708,7 +754,7 @@ def kapi_check(pid, profile, monitor_name, rule, nq=400, nt=12000, nops=45):
 
 
 RULE = 'model-guided random call sequences over 2 tokens and up to ~8 sessions (%s profile of tools/genapi.py); a trace is non-trivial when at least 3 calls after the prelude succeed; distinct = distinct (op, rv) sequences'
-CHECKS = {'C03': check_C03, 'C07': check_C07, 'C05': check_C05, 'C09': check_C09, 'C16': check_C16, 'C14': check_C14, 'C17': check_C17, 'C20': check_C20, 'C15': check_C15, 'C06': check_C06, 'C12': check_C12, 'C02': attr_check('C02'), 'C08': attr_check('C08'), 'C10': check_C10, 'C13': check_C13,
+CHECKS = {'C03': check_C03, 'C07': check_C07, 'C05': check_C05, 'C09': check_C09, 'C16': check_C16, 'C14': check_C14, 'C17': check_C17, 'C20': check_C20, 'C15': check_C15, 'C06': check_C06, 'C18': check_C18, 'C12': check_C12, 'C02': attr_check('C02'), 'C08': attr_check('C08'), 'C10': check_C10, 'C13': check_C13,
           'C01': kapi_check('C01', 'objects', 'monitor_c01', RULE % 'objects'),
           'C04': kapi_check('C04', 'pins', 'monitor_c03', RULE % 'pins'),
           'C11': kapi_check('C11', 'handles', 'monitor_c11', RULE % 'handles'),
